@@ -303,7 +303,7 @@ func runCases(drv string, np int, cases []tcase, nproc, batch int) ([]*obsT, err
 				mu.Unlock()
 				return
 			}
-			p.Limit = 5 * time.Minute
+			p.Limit = 10 * time.Minute
 			defer p.Close()
 			for r := range work {
 				mu.Lock()
@@ -320,7 +320,7 @@ func runCases(drv string, np int, cases []tcase, nproc, batch int) ([]*obsT, err
 					Obs   []obsT `json:"obs"`
 					Panic string `json:"panic"`
 				}
-				if err := p.Call(map[string]any{"op": "replay", "np": np, "cases": wire, "watchdog_ms": 5000}, &resp); err != nil || resp.Panic != "" {
+				if err := p.Call(map[string]any{"op": "replay", "np": np, "cases": wire, "watchdog_ms": 20000}, &resp); err != nil || resp.Panic != "" {
 					mu.Lock()
 					if firstErr == nil {
 						firstErr = fmt.Errorf("replay driver: %v %s", err, resp.Panic)
@@ -345,21 +345,22 @@ func runCases(drv string, np int, cases []tcase, nproc, batch int) ([]*obsT, err
 }
 
 type graphStats struct {
-	Config          string         `json:"config"`
-	States          int            `json:"states"`
-	Transitions     int            `json:"transitions"`
-	Depth           int            `json:"depth"`
-	ByAction        map[string]int `json:"transitions_by_action"`
-	Replayed        int            `json:"transitions_replayed"`
-	WakeEdges       int            `json:"wake_transitions_covered_by_admitting_edges"`
-	CtxReadySeen    int            `json:"ctx_ready_staged_and_observed"`
-	CtxReadyImplied int            `json:"ctx_ready_transitions_implied_by_commutation"`
-	CtxReadyRuns    int            `json:"ctx_ready_attempts"`
-	Untestable      int            `json:"transitions_not_replayable"`
-	ImplOutcomes    map[string]int `json:"impl_outcomes"`
-	Mismatches      int            `json:"mismatching_transitions"`
-	TLCWall         float64        `json:"tlc_wall_s"`
-	ReplayWall      float64        `json:"replay_wall_s"`
+	Config            string         `json:"config"`
+	States            int            `json:"states"`
+	Transitions       int            `json:"transitions"`
+	Depth             int            `json:"depth"`
+	ByAction          map[string]int `json:"transitions_by_action"`
+	Replayed          int            `json:"transitions_replayed"`
+	WakeEdges         int            `json:"wake_transitions_covered_by_admitting_edges"`
+	CtxReadySeen      int            `json:"ctx_ready_staged_and_observed"`
+	CtxReadyImplied   int            `json:"ctx_ready_transitions_implied_by_commutation"`
+	CtxReadyRuns      int            `json:"ctx_ready_attempts"`
+	Untestable        int            `json:"transitions_not_replayable"`
+	AdmittingReplayed int            `json:"replayed_transitions_that_wake_a_queued_waiter"`
+	ImplOutcomes      map[string]int `json:"impl_outcomes"`
+	Mismatches        int            `json:"mismatching_transitions"`
+	TLCWall           float64        `json:"tlc_wall_s"`
+	ReplayWall        float64        `json:"replay_wall_s"`
 }
 
 func weightClass(g *graph, t tcase) string {
@@ -498,6 +499,13 @@ func replayGraph(c *core.Ctx, drv, name string, d dumped, np, nproc int, sample 
 					done[t.edge] = true
 					st.Replayed++
 					st.ImplOutcomes[g.edges[t.edge].name]++
+					le := g.edges[t.last]
+					for p, s0 := range g.nodes[le.from].St {
+						if s0 == "waiting" && g.nodes[le.to].St[p] == "ready" && t.HookCancel == 0 {
+							st.AdmittingReplayed++
+							break
+						}
+					}
 				}
 			}
 			pending = again
